@@ -89,7 +89,7 @@ def wtype_schema(t):
 
 
 def registry():
-    """-> (codecs, {table: [(pv, [codec index per class, row order of Generated/Ids.lean])]})"""
+    """-> (codecs, {table: [(pv, [(class name, codec index), row order of Generated/Ids.lean])]})"""
     import minecraft
     from minecraft.networking.connection import ConnectionContext
     from minecraft.networking import packets
@@ -121,7 +121,7 @@ def registry():
                     codecs.append(lay)
                 ents.append((cls.__name__, -1 if i is None else i, index[lay]))
             ents.sort(key=lambda e: (e[0], e[1]))
-            rows.append((pv, [e[2] for e in ents]))
+            rows.append((pv, [(e[0], e[2]) for e in ents]))
         tabs[name] = rows
     return codecs, tabs
 
@@ -396,17 +396,17 @@ def render():
             rows.append('  some [%s]' % ', '.join('(%s, %s)' % (lean_str(n), t) for n, t in c))
     o.append(',\n'.join(rows))
     o.append(']\n')
-    o.append('/-- `shapes`: the distinct lists of codec indices — one index per class returned by get_packets(context), in')
-    o.append('the row order of `Gen.idTables`; `rows`: per known protocol version (KNOWN_PROTOCOL_VERSIONS order) the index')
-    o.append('of its shape -/')
-    o.append('structure IdxTable where\n  shapes : List (List Nat)\n  rows : List (Nat × Nat)\n')
+    o.append('/-- `shapes`: the distinct lists of (class name, codec index) — one per class returned by get_packets(context),')
+    o.append('in the row order of `Gen.idTables`; `rows`: per known protocol version (KNOWN_PROTOCOL_VERSIONS order) the')
+    o.append('index of its shape -/')
+    o.append('structure IdxTable where\n  shapes : List (List (String × Nat))\n  rows : List (Nat × Nat)\n')
     for name, rws in tabs.items():
         shapes = []
         for _, ix in rws:
             if ix not in shapes:
                 shapes.append(ix)
         o.append('def %sIdx : IdxTable where\n  shapes := [\n%s\n  ]\n  rows := [%s]\n' % (
-            name, ',\n'.join('    [%s]' % ', '.join(map(str, ix)) for ix in shapes),
+            name, ',\n'.join('    [%s]' % ', '.join('(%s, %d)' % (lean_str(c), k) for c, k in ix) for ix in shapes),
             ', '.join('(%d, %d)' % (pv, shapes.index(ix)) for pv, ix in rws)))
     o.append('def codecIdx : List (String × IdxTable) := [%s]\n' %
              ', '.join('(%s, %sIdx)' % (lean_str(n), n) for n in tabs))
